@@ -158,7 +158,27 @@ def r8_3(ctx):
             cb = ctx.prog.body_by_def(n.a[0][len("closure "):], f.crate)
             if cb is not None:
                 calls += [mname(t) for _, t in cb.calls()]
-    ctx.check("escape" in calls and any(c.endswith("join") for c in calls) and any("keys" in c for c in calls), "names-source", f.loc(bb),
+    ok_names = "escape" in calls and any(c.endswith("join") for c in calls) and any("keys" in c for c in calls)
+    root = peel(names)
+    if not ok_names and root.kind == "call" and method_name(root.a) in ("String::new", "String::with_capacity") and root.at is not None:
+        # explicit form: a String built by push_str(&regex::escape(name)) with push('|') between the names
+        from .c16 import mut_calls
+        o2 = Origins(f)
+        local = f.blocks[root.at[0]]["term"]["dest"]["l"]
+        parts, seps, other = [], [], []
+        for mb, mt in mut_calls(f, local):
+            m = mname(mt)
+            if m == "String::push_str":
+                parts.append(o2.operand(mt["args"][1]))
+            elif m == "String::push":
+                seps.append(peel(o2.operand(mt["args"][1])))
+            else:
+                other.append(m)
+        src_calls = [method_name(c) for p_ in parts for c in p_.call_names()]
+        ok_names = bool(parts) and all(any(method_name(c) == "escape" for c in p_.call_names()) for p_ in parts) and any("keys" in c for c in src_calls) and \
+            bool(seps) and all(x.kind == "const" and x.a.as_char() == "|" for x in seps) and not other
+        calls = src_calls + ["push(%s)" % x.show() for x in seps] + other
+    ctx.check(ok_names, "names-source", f.loc(bb),
               "the names come from makers.keys() through regex::escape, joined with `|`", "names derive from %s" % calls)
     text = "".join(p if isinstance(p, str) else "kinda|kindb" for p in ps)
     m = re.match(r"^\(\?x\)", text.strip())
